@@ -400,7 +400,6 @@ def coerce (env : CoerceEnv) (c : JClass) (d : Py) : Outcome Py :=
   | .float =>
       match d with
       | .float _ => .ok d
-      | .bool b => .ok (.float (.fin (if b then 1 else 0)))
       | .int i => match intToFlt i with
           | some f => .ok (.float f)
           | Option.none => badTypeP .float d
